@@ -138,8 +138,67 @@ def language_lemmas():
 language_lemmas.__pyvc_native__ = True
 
 
+# ---- the fixed_twprge list: multiset difference of the Twp/Rges found after and before preprocessing -----------------------------
+
+def run_preprocess(txt):
+    from pytrs.parser.plssdesc.plss_preprocess import plss_preprocess
+    return plss_preprocess(txt, 'n', 'w', False)
+
+
+def _pp_setup(ip, env):
+    from pytrs.parser.plssdesc import plss_preprocess as M
+    from pyvc import models
+    from props.plss_stubs import g_str
+    calls = {'n': 0}
+
+    def find_model(ip_, args, kwargs, node):
+        calls['n'] += 1
+        return list(env['before'] if calls['n'] == 1 else env['after'])
+    models.register_model(M.find_twprge, find_model)
+    models.register_model(M.sub_scrubber, lambda ip_, a, k, n: g_str('G_scrub', a[1]))
+    models.register_model(M.reduce_whitespace, lambda ip_, a, k, n: g_str('G_ws', a[0]))
+    ip.ctx.assumed.append('abstraction:find_twprge returns the ghost lists before / after the substitutions')
+
+
+def multiset_minus(after, before):
+    out = [x for x in after]
+    for b in before:
+        if b in out:
+            out.remove(b)
+    return out
+
+
+def count(xs, v):
+    return sum([1 for x in xs if x == v])
+
+
+def _fixed_list_unit():
+    shapes = [FixedList(), FixedList(Str()), FixedList(Str(), Str())]
+    return Unit(
+        name='C08/plss_preprocess[fixed Twp/Rge list]', prop='C08', target='props.c08:run_preprocess', params={'txt': Str()},
+        ghost={'before': Choice(*shapes), 'after': Choice(FixedList(Str()), FixedList(Str(), Str()), FixedList(Str(), Str(), Str()))},
+        setup_params=_pp_setup,
+        ensures=[('every_twprge_that_was_not_there_before_is_reported', lambda before, after, result:
+                  all([count(result[1], v) == (count(after, v) - count(before, v) if count(after, v) > count(before, v) else 0)
+                       for v in after]) and all([count(after, v) >= 1 for v in result[1]]))])
+
+
+def _default_precedence_unit():
+    from props import c13
+    from props.shapes import Native
+    return Unit(
+        name='C08/PLSSDesc.parse[default directions: keyword over config]', prop='C08',
+        target='pytrs.parser.plssdesc.plssdesc:PLSSDesc.parse',
+        params={'self': Native(c13._plssdesc, default_ns=Opt(OneOf('n', 's')), default_ew=Opt(OneOf('e', 'w'))),
+                'default_ns': Opt(OneOf('n', 's')), 'default_ew': Opt(OneOf('e', 'w')), 'commit': Const(False)},
+        uses=[c13.PLSSPARSER_INIT],
+        ensures=[('keyword_over_config', lambda self, default_ns, default_ew, locals_:
+                  locals_['parser'].arg_default_ns == c13.pick(default_ns, self.default_ns)
+                  and locals_['parser'].arg_default_ew == c13.pick(default_ew, self.default_ew))])
+
+
 def units():
-    return [_unpack_unit(), _bad_default_unit(), _short_unit(),
+    return [_unpack_unit(), _bad_default_unit(), _short_unit(), _fixed_list_unit(), _default_precedence_unit(),
             Unit(name='C08/twprge pattern languages', prop='C08', target='props.c08:language_lemmas', params={})]
 
 
@@ -217,6 +276,21 @@ def _bounded_twprge(tier, seed):
                                 bad({'fn': 'find_twprge', 'text': sp, 'defaults': [dns, dew]}, got, [want, want])
             if len(samples) < 2:
                 samples.append({'spellings': spellings(t, 'n', r, 'w')[:4], 'canonical': f"T{t}N-R{r}W"})
+    # the same Twp/Rge written out in full once and without directions elsewhere; a keyword against a conflicting config
+    for text, cfg, kw, want_trs, want_warn in (
+            ('T154N-R97W Sec 14: NE/4, T154-R97 Sec 15: W/2', '', {}, ['154n97w14', '154n97w15'], True),
+            ('T154-R97 Sec 14: NE/4, T154N-R97W Sec 15: W/2', '', {}, ['154n97w14', '154n97w15'], True),
+            ('T154N-R97W Sec 14: NE/4, T154N-R97W Sec 15: W/2', '', {}, ['154n97w14', '154n97w15'], False),
+            ('T154-R97 Sec 14: NE/4', 'n,w', {'default_ns': 's', 'default_ew': 'e'}, ['154s97e14'], True),
+            ('T154-R97 Sec 14: NE/4', 's,e', {'default_ns': 'n'}, ['154n97e14'], True),
+            ('T154N-R97 Sec 14: NE/4', 's,e', {'default_ew': 'w'}, ['154n97w14'], True)):
+        d = pytrs.PLSSDesc(text, config=cfg or None, wait_to_parse=True)
+        d.parse(**kw)
+        ev += 1
+        distinct.add(('mixed', text, cfg, str(kw)))
+        warned = any(f.startswith('fixed_twprge') for f in d.w_flags)
+        if [x.trs for x in d.tracts] != want_trs or warned != want_warn:
+            bad({'text': text, 'config': cfg, 'keywords': kw}, [[x.trs for x in d.tracts], d.w_flags], [want_trs, 'warning' if want_warn else 'no warning'])
     # reading order of several Twp/Rges
     got = pytrs.find_twprge('T154N-R97W Sec 1: x, Township 7 South, Range 2 East Sec 2: y; 155N-98W', preprocess=True)
     ev += 1
